@@ -251,6 +251,8 @@ pub struct ImpRun {
     /// the same trace continued for a few more `next()` calls after the first error item (only for the
     /// oracles whose property does not stop at the first error: driver protocol, `changed` flags)
     pub post_lines: Vec<String>,
+    /// the part of the continued trace behind the first error item that the model reproduces (see `comparable_tail`)
+    pub tail_lines: Vec<String>,
     pub script: Vec<Resp>,
     /// epochs of (bound, value) pairs, split at every resetRandom
     pub epochs: Vec<Vec<(i64, i64)>>,
@@ -480,12 +482,62 @@ pub fn run_dynamic(case: &Case, src: &str) -> ImpRun {
     let all = lines.borrow().clone();
     let cut = all.iter().position(|l| l == "posterr").unwrap_or(all.len());
     let post_lines: Vec<String> = all.iter().filter(|l| *l != "posterr").cloned().collect();
+    let tail_lines = if cut < all.len() { comparable_tail(&all[..cut], &all[cut + 1..]) } else { vec![] };
     let mut lines: Vec<String> = all[..cut].to_vec();
     if lines.last().map(|l| l.starts_with("item ") && l.contains(" none")).unwrap_or(false) {
         let draws = rng_log.iter().filter(|e| matches!(e, RngEvent::Draw(_))).count();
         lines.push(format!("rng draws={draws}"));
     }
-    ImpRun { lines, post_lines, script, epochs, rng_log, panicked }
+    ImpRun { lines, post_lines, tail_lines, script, epochs, rng_log, panicked }
+}
+
+/// The part of the trace behind the first error item that the model reproduces: the run is followed while the
+/// error items come from the IO step (a driver call was made during that `next()`), up to five error items in
+/// all; it ends with the first evaluation error (no call) and — when a virtual signal draws random numbers —
+/// with the first error found in an answer.  (`Main.lean: runItems` applies the same rule.)
+pub fn comparable_tail(prefix: &[String], tail: &[String]) -> Vec<String> {
+    let virt_random = prefix
+        .first()
+        .and_then(|l| l.find("virt=").map(|i| l[i..].contains("(call h72616e646f6d")))
+        .unwrap_or(false);
+    // the first error item: the last item line of the prefix
+    let sig: Vec<&String> = prefix.iter().filter(|l| !l.starts_with('#')).collect();
+    let last_item = match sig.iter().rposition(|l| l.starts_with("item ")) {
+        Some(i) => i,
+        None => return vec![],
+    };
+    let called = last_item > 0 && sig[last_item - 1].starts_with("call ");
+    let is_driver = sig[last_item].contains(" err driver:");
+    if !called || (!is_driver && virt_random) {
+        return vec![];
+    }
+    let mut out = vec![];
+    let mut n_err = 1;
+    let mut call_since_item = false;
+    for l in tail {
+        if l.starts_with("rng ") {
+            continue;
+        }
+        out.push(l.clone());
+        if l.starts_with("call ") {
+            call_since_item = true;
+        } else if l.starts_with("item ") {
+            let w: Vec<&str> = l.split(' ').collect();
+            match w.get(2).copied() {
+                Some("row") => {}
+                Some("err") => {
+                    n_err += 1;
+                    let is_driver = l.contains(" err driver:");
+                    if !call_since_item || n_err >= 5 || (!is_driver && virt_random) {
+                        break;
+                    }
+                }
+                _ => break,
+            }
+            call_since_item = false;
+        }
+    }
+    out
 }
 
 /// static run (`try_iter_static`) of an already bound test
